@@ -9,10 +9,10 @@ from vlib.common import PROVED, REFUTED, UNKNOWN
 
 PARTS = {
     "C02": M.PARTS,
-    "C07": ("multi", "wrg", "write"),
-    "C09": ("wcm", "pfwcm", "multi", "wrg"),
-    "C19": ("multi", "wrg", "write"),
-    "C18": ("multi", "write"),
+    "C07": ("multi", "poc", "effects", "wrg", "write"),
+    "C09": ("wcm", "pfwcm", "multi", "poc", "effects", "wrg"),
+    "C19": ("multi", "poc", "effects", "wrg", "write"),
+    "C18": ("multi", "effects", "write"),
 }
 _C07 = re.compile(r"^write_multi\[append=True.*\]\.(loop\.|closing\.|part\.|partition\.|no_attr_of_None|row_group_appended|out_of_reach)|"
                   r"^write_row_groups|^write\.dispatch\.(append_goes|scheme_and_append|append_requires|append_flag)")
@@ -20,12 +20,15 @@ _C09 = re.compile(r"part\.name_opened_is_numbered_past|fmd_restored|opens_fn_wb|
                   r"^write_common_metadata\[.*\]\.(file_is_magic|footer\.(row_groups_are_all|has_no_row_groups|num_rows))|out_of_reach")
 _C19 = re.compile(r"part\.name_opened_is_numbered_past|^write_multi\[append=True.*\]\.closing\.(metadata_then|summary_gets)|^write_row_groups(\[multi\]\.(steps_in_order|appends_through)"
                   r"|\.handle_refreshed)|^write\.dispatch\.(append_goes|append_requires|append_flag)|out_of_reach")
+_RM = re.compile(r"^effects\.\w+\[ParquetFile\.(remove_row_groups|_sort_part_names)")     # the removal side: C09 only
+_POC_EFF = re.compile(r"^partition_on_columns\[|^effects\.")
 SELECT = {
-    "C02": lambda n: True,
-    "C07": lambda n: _C07.search(n) is not None,
-    "C09": lambda n: _C09.search(n) is not None and "raises_only_before" not in n,
-    "C19": lambda n: _C19.search(n) is not None,
-    "C18": lambda n: re.search(r"^write\.dispatch\.(append_requires|append_flag)|part\.name_opened_is_numbered_past|out_of_reach", n) is not None,   # a failed append is reported, nothing touched
+    "C02": lambda n: _RM.search(n) is None,
+    "C07": lambda n: _C07.search(n) is not None or (_POC_EFF.search(n) is not None and _RM.search(n) is None),
+    "C09": lambda n: (_C09.search(n) is not None and "raises_only_before" not in n) or _POC_EFF.search(n) is not None,
+    "C19": lambda n: _C19.search(n) is not None or (_POC_EFF.search(n) is not None and _RM.search(n) is None),
+    "C18": lambda n: re.search(r"^write\.dispatch\.(append_requires|append_flag)|part\.name_opened_is_numbered_past|out_of_reach", n) is not None
+    or (n.startswith("effects.") and _RM.search(n) is None),   # a failed append is reported, nothing touched
 }
 # known findings: (id, regex over the obligation names it covers).  Each region is exact: make_part_file's `[any frame]` obligation is
 # refuted only for len(data) == 0 (its `[frame with rows]` sibling is PROVED), the fmd=None run has no other refutation.  The write_multi
@@ -35,6 +38,7 @@ SELECT = {
 # truncation finding was repaired in /repo (4f80931, record fixed-C02-summary-truncated-before-validation): `fixed` records suppress
 # nothing, write_common_metadata[..].raises_only_before_the_file_is_opened[key or value not text] must be PROVED.
 KNOWN = {
+    "C09": [(M.FID_RMSWALLOW, re.compile(r"^effects\.io_errors_propagate\[ParquetFile\.remove_row_groups: remove_with\(\)\]$"))],
     "C02": [
         (M.FID_EMPTY, re.compile(r"^make_part_file\[.*\]\.file_is_a_complete_parquet_file\[any frame\]$")),
         (M.FID_NOFMD, re.compile(r"^make_part_file\[fmd=None\]\.(footer_serialisation_does_not_raise|write_thrift\.no_iteration_over_None\[obj\.key_value_metadata\])$")),
@@ -42,7 +46,8 @@ KNOWN = {
 }
 FUNC = [("make_part_file", "writer.make_part_file"), ("write_common_metadata", "writer.write_common_metadata"),
         ("_write_common_metadata", "api.ParquetFile._write_common_metadata"), ("write_multi", "writer.write_multi"),
-        ("write_row_groups", "api.ParquetFile.write_row_groups"), ("write.", "writer.write"), ("thrift_object_model", "cencoding.ThriftObject")]
+        ("write_row_groups", "api.ParquetFile.write_row_groups"), ("write.", "writer.write"), ("partition_on_columns", "writer.partition_on_columns"),
+        ("effects.", "writer / api write path"), ("thrift_object_model", "cencoding.ThriftObject")]
 
 
 def p_partfiles(ctx):
